@@ -197,3 +197,7 @@ def run(ctx):
     wrapper_history_pass(ctx, ['add', 'sub'])
     registered_linear_pass(ctx)
     scalar_operand_pass(ctx)
+    # the same element in different key orders through the by-name routes (wrapper, registered), incl. key sets whose decimal /
+    # hexadecimal digit strings coincide when concatenated (d = 5, 6)
+    from harness.c09 import collision_search
+    collision_search(ctx, ops=('add', 'sub'))
